@@ -68,6 +68,9 @@ type scenario struct {
 	// CtxDeath (death mode): the holder does not stop as a process; the context it acquired with (one that carries a far
 	// deadline) is cancelled after CtxDeath of holding, and it never unlocks
 	CtxDeath time.Duration
+	// OwnObject (death mode, with CtxDeath): the recoverer works through the dead holder's own lock object (a long-lived
+	// worker reusing one lock object across jobs) instead of objects of its own
+	OwnObject bool
 	// glitch mode: the holder's GlitchAt-th backend operation after its Mkdir of the lock directory fails once with a
 	// transient error (the backend is left untouched by that operation); everything else is on time
 	GlitchAt int
@@ -399,24 +402,31 @@ func body(sc scenario) func(x *gosim.Exec) {
 					return
 				}
 				probe := newLock(backend, shared, c, false)
+				via := ""
+				if sc.OwnObject {
+					probe, via = holder, ":via=the-holder's-own-lock-object"
+				}
 				stale := probe.IsStale()
 				x.Note("rec%d at death+%v: IsStale=%v", r, time.Since(w.deathAt), stale)
 				if sc.Racers == 1 && w.dirAtKill && !stale {
-					x.Violate("dead-lock-not-reported-stale", "the holder died %v ago (lock directory present) and IsStale is false", time.Since(w.deathAt))
+					x.Violate("dead-lock-not-reported-stale"+via, "the holder died %v ago (lock directory present) and IsStale is false", time.Since(w.deathAt))
 					return
 				}
 				err := probe.ReleaseIfStale(x.Ctx())
 				x.Note("rec%d ReleaseIfStale=%v", r, err)
 				if sc.Racers == 1 && err != nil {
-					x.Violate("dead-lock-release-failed", "ReleaseIfStale after the holder's death: %v", err)
+					x.Violate("dead-lock-release-failed"+via, "ReleaseIfStale after the holder's death: %v", err)
 					return
 				}
 				fresh := newLock(backend, shared, c, false)
+				if sc.OwnObject {
+					fresh = holder
+				}
 				err = fresh.TryLock(x.Ctx())
 				x.Note("rec%d fresh TryLock=%v", r, err)
 				results[r] = err
 				if sc.Racers == 1 && err != nil {
-					x.Violate("dead-lock-not-recoverable", "TryLock after ReleaseIfStale failed: %v", err)
+					x.Violate("dead-lock-not-recoverable"+via, "TryLock after ReleaseIfStale failed: %v", err)
 					return
 				}
 				if err == nil {
@@ -540,6 +550,8 @@ func scenarios() []scenario {
 	// (c') the holder's context (with a far deadline) ends instead of its process
 	out = append(out, scenario{Name: "death/context with a deadline cancelled after 70ms", Mode: "death", HoldBeats: 4, KillAt: 1 << 30, CtxDeath: 70 * time.Millisecond, Racers: 1, Bound: 0})
 	out = append(out, scenario{Name: "death/context with a deadline cancelled after 1ms", Mode: "death", HoldBeats: 4, KillAt: 1 << 30, CtxDeath: time.Millisecond, Racers: 1, Bound: 1})
+	out = append(out, scenario{Name: "death/context cancelled after 70ms, recovery through the holder's own lock object", Mode: "death", HoldBeats: 4, KillAt: 1 << 30, CtxDeath: 70 * time.Millisecond, Racers: 1, Bound: 1, OwnObject: true})
+	out = append(out, scenario{Name: "death/context cancelled after 1ms, recovery through the holder's own lock object", Mode: "death", HoldBeats: 4, KillAt: 1 << 30, CtxDeath: time.Millisecond, Racers: 1, Bound: 1, OwnObject: true})
 	// (d) the recoverers use stale-lock override
 	for _, k := range []int{2, 3, 5, 8, 13} {
 		out = append(out, scenario{Name: fmt.Sprintf("death/before-op-%02d/override recoverer", k), Mode: "death", HoldBeats: 4, KillAt: k, Racers: 1, Override: true, Bound: 0})
